@@ -247,11 +247,15 @@ Definition expr_index (arr idx : ty) : ires :=
   | g => IOk (us g)
   end.
 
-(* expr_slice_basic *)
+(* expr_slice_basic (after the repair 0f4399a: a slice of a tuple has any number of the tuple's elements, so a tuple type,
+   fixed-arity or homogeneous, slices to Ty::tuple_of(tuple.item_ty()) = tuple[T0 | .. | Tn-1, ...]; the empty tuple type
+   `()` slices to tuple[typing.Never, ...] because Ty::unions([]) = Never.  Before the repair the tuple type was returned
+   unchanged, like the list type: `t[0:1]` with t: (int, str) kept the type (int, str) although the value is (1,).) *)
 Definition slice_basic (t : ty) : option ty :=
   match t with
-  | TBase BStr => Some t
-  | TList _ | Ty.Spec.TTuple _ | TTupleOf _ => Some t
+  | TBase BStr => Some t                                             (* StarlarkValue: v.slice() *)
+  | Ty.Spec.TTuple _ | TTupleOf _ => Some (TTupleOf (item_ty t))     (* Ty::tuple_of(tuple.item_ty()) *)
+  | TList _ => Some t                                                (* array.is_list(): Ty::basic(array.dupe()) *)
   | _ => None
   end.
 
